@@ -33,7 +33,7 @@ type c07Mode struct {
 }
 
 func c07Modes(quick bool) []c07Mode {
-	emacsRC := "\"\\C-x\\C-]r\": redo\n"
+	emacsRC := "\"\\C-x\\C-]r\": redo\n\"\\C-x\\C-]h\": accept-and-hold\n"
 	e := []Action{Act("a", "a"), Act("b", "b"), Act("space", " "), Act("paste", "xy z"), Act("backward-delete-char", "\x7f"), Act("kill-word", "\x1bd"),
 		Act("unix-word-rubout", "\x17"), Act("kill-line", "\x0b"), Act("yank", "\x19"), Act("backward-char", "\x02"), Act("beginning-of-line", "\x01"),
 		Act("previous-history", "\x10"), Act("next-history", "\x0e"), Act("undo", "\x1f"), Act("redo", "\x18\x1dr"), Act("M-2", "\x1b2"), Act("delete-char", "\x04")}
@@ -41,7 +41,7 @@ func c07Modes(quick bool) []c07Mode {
 		e = append(e, Act("unix-line-discard", "\x15"), Act("transpose-chars", "\x14"), Act("up-case-word", "\x1bu"),
 			Act("forward-char", "\x06"), Act("end-of-line", "\x05"), Act("revert-line", "\x1br"), Act("transpose-words", "\x1bt"))
 	}
-	viRC := "set editing-mode vi\nset keymap vi-command\n\"\\C-r\": redo\n"
+	viRC := "set editing-mode vi\nset keymap vi-insert\n\"\\C-x\\C-]h\": accept-and-hold\nset keymap vi-command\n\"\\C-r\": redo\n"
 	v := []Action{Act("i", "i"), Act("a-key", "a"), Act("b-key", "b"), Act("esc", "\x1b"), Act("x", "x"), Act("dw", "dw"), Act("D", "D"), Act("p", "p"),
 		Act("u", "u"), Act("redo", "\x12"), Act("h", "h"), Act("0", "0"), Act("k", "k"), Act("j", "j"), Act("2", "2")}
 	if !quick {
@@ -61,10 +61,11 @@ func init() {
 			H    []string
 			Walk bool
 			Base int
+			Init string
 		}
 		jsonUnmarshal(w.Input, &in)
 		t := c.Pool.RunOne(w.Job)
-		fp, what := c07Probe(in.Kind, in.N, in.H, in.Walk, in.Base, t)
+		fp, what := c07ProbeInit(in.Kind, in.N, in.H, in.Init, in.Walk, in.Base, t)
 		var lines []string
 		for _, wt := range LastCall(t).Waits {
 			if wt.Obs != nil {
@@ -78,6 +79,12 @@ func init() {
 // c07Probe judges one probe execution. Waits are recorded from the end of the mode
 // preamble; base = index of the wait at which the probed state was reached.
 func c07Probe(kind string, n int, H []string, walked bool, base int, t *harness.Trace) (fp, what string) {
+	return c07ProbeInit(kind, n, H, "", walked, base, t)
+}
+
+// c07ProbeInit: init is the content the line of this call started with (empty, or the line held by
+// accept-and-hold in the previous call).
+func c07ProbeInit(kind string, n int, H []string, init string, walked bool, base int, t *harness.Trace) (fp, what string) {
 	call := LastCall(t)
 	if call.Outcome != "aborted" {
 		return "", "not judged (C01): " + call.Outcome + "@" + call.Site
@@ -92,7 +99,7 @@ func c07Probe(kind string, n int, H []string, walked bool, base int, t *harness.
 	if base >= len(lines) {
 		return "", "not judged: short trace"
 	}
-	shown := map[string]bool{"": true} // the line's initial content was shown at the first wait
+	shown := map[string]bool{init: true} // the line's initial content was shown at the first wait
 	for _, h := range H {
 		shown[h] = true
 	}
@@ -119,10 +126,10 @@ func c07Probe(kind string, n int, H []string, walked bool, base int, t *harness.
 			return "", "not judged: undo did not become stable within the presses given"
 		}
 		final := lines[len(lines)-1]
-		if !walked && final != "" {
-			return "undo-does-not-reach-initial-content", fmt.Sprintf("undoing repeatedly from %q ends in %q, the line started empty", at, final)
+		if !walked && final != init {
+			return "undo-does-not-reach-initial-content", fmt.Sprintf("undoing repeatedly from %q ends in %q, the line started as %q", at, final, init)
 		}
-		if walked && final != "" && !inList(H, final) {
+		if walked && final != init && !inList(H, final) {
 			return "undo-does-not-reach-initial-content", fmt.Sprintf("undoing repeatedly from %q ends in %q, neither empty nor a history entry %q", at, final, H)
 		}
 	case "undo-redo":
@@ -218,12 +225,14 @@ func runC07(c *Ctx) {
 	}
 	c.Rule = fmt.Sprintf("explicit-state BFS to depth %d over edit/movement/kill/yank/history-walk/undo/redo commands in emacs and vi, histories {none, 2 entries}; in every reached state 6 law probes (undo until stable, undo^n redo^n for n=1..3, undo+edit+redo, undo+edit+undo) are executed; buffers observed at every wait. non-trivial = distinct states reached (the state key contains the undo stacks)", depth)
 	c.Assumptions = []string{"'previously shown for that line' is checked against all buffers shown earlier in the session plus the history entries (the history position is not observable through the API)", "sequences beyond the depth bound are not explored (no random tail: sampling is a different technique)"}
-	c.Bounds = map[string]any{"depth": depth, "probes_per_state": 8, "histories": []string{"none", "[one, two words]", "[one, two words] in the second call of a Shell whose first call typed foo, walked up and accepted a history line"}}
+	c.Bounds = map[string]any{"depth": depth, "probes_per_state": 8, "histories": []string{"none", "[one, two words]", "[one, two words] in the second call of a Shell whose first call typed foo, walked up and accepted a history line", "[one, two words] in the second call after accept-and-hold of abc"}}
 	H2 := []string{"one", "two words"}
 	for _, m := range c07Modes(quick) {
 		// hi == 2: the search starts in the SECOND call of a Shell whose first call typed on the input
 		// line, walked up to a history line and accepted that one (state left over between calls)
-		for hi, H := range [][]string{nil, H2, H2} {
+		// hi == 3: the SECOND call after the first one ended with accept-and-hold (this call's line starts as the held text)
+		for hi, H := range [][]string{nil, H2, H2, H2} {
+			initLine := ""
 			if c.Expired() {
 				c.Cap("internal deadline: " + m.name + " skipped")
 				break
@@ -239,9 +248,13 @@ func runC07(c *Ctx) {
 					cfg.PriorCalls = [][]harness.Answer{Keys("foo", "\x10", "\r")}
 				}
 			}
+			if hi == 3 {
+				cfg.PriorCalls = [][]harness.Answer{Keys("abc", "\x18\x1dh")}
+				initLine = "abc"
+			}
 			for si2, extraPre := range [][]string{nil, m.longSeed} {
 				pre := Keys(append(append([]string{}, m.pre...), extraPre...)...)
-				if si2 == 1 && (quick && hi == 1 || hi == 2) {
+				if si2 == 1 && (quick && hi == 1 || hi >= 2) {
 					continue
 				}
 				type reached struct {
@@ -328,7 +341,7 @@ func runC07(c *Ctx) {
 					if m.name == "vi" {
 						base++
 					}
-					fp, what := c07Probe(p.kind, p.n, H, walked, base, t)
+					fp, what := c07ProbeInit(p.kind, p.n, H, initLine, walked, base, t)
 					if fp == "" {
 						if strings.HasPrefix(what, "not judged") {
 							c.Outcome(strings.SplitN(what, "@", 2)[0])
@@ -344,8 +357,8 @@ func runC07(c *Ctx) {
 					}
 					jj := *j
 					c.Violate(Witness{Fingerprint: fp, What: fmt.Sprintf("[%s] after %v: %s; keys: %s", sc.Name, pathNames(st.path), what, ShowKeys(j.Calls[0])), Engine: "session", Job: &jj,
-						Input: jsonRaw(map[string]any{"Kind": p.kind, "N": p.n, "H": H, "Walk": walked, "Base": base})}, func() string {
-						f, _ := c07Probe(p.kind, p.n, H, walked, base, c.Pool.RunOne(&jj))
+						Input: jsonRaw(map[string]any{"Kind": p.kind, "N": p.n, "H": H, "Walk": walked, "Base": base, "Init": initLine})}, func() string {
+						f, _ := c07ProbeInit(p.kind, p.n, H, initLine, walked, base, c.Pool.RunOne(&jj))
 						return f
 					})
 				})
